@@ -347,6 +347,24 @@ func runProgram(seed uint64, i int, shrunkClasses map[string]bool) []caseRec {
 	var p *Program
 	var tags []string
 	switch {
+	case i%10 == 4:
+		sts, fam := specFamily(rng)
+		s := &session{P: &Program{}, Names: []string{"f", "x", "y"}, Tags: []string{"stream:desugared-spec", "family:" + fam, "texts:per-form"}}
+		for _, st := range sts {
+			if st.rej {
+				s.Texts = append(s.Texts, Text{Src: st.src, Prefix: noopErr, Role: "interlude"})
+			} else {
+				s.Texts = append(s.Texts, Text{Src: st.src, Prefix: (&Program{Forms: st.forms}).Prefix(), Role: "desugar"})
+			}
+		}
+		if rng.Intn(2) == 0 {
+			j := rng.Intn(len(interludes))
+			s.Texts = append(s.Texts, Text{Src: interludes[j], Prefix: noopErr, Role: "interlude"})
+		}
+		s.Texts = append(s.Texts, battery(s.Names)...)
+		s.LoadRun = rng.Intn(3) == 0
+		s.Tags = append(s.Tags, "entry:"+s.entry())
+		return enumRecs(s, i, shrunkClasses, false)
 	case i%10 == 9:
 		srcs, fam := rawFamily(rng)
 		s := &session{P: &Program{}, Names: []string{"f", "h", "x", "y"}, Tags: []string{"stream:raw-extension", "family:" + fam, "texts:per-form"}}
@@ -607,6 +625,25 @@ func shrunkCase(s *session, anom string, kinds []FKind) *caseRec {
 		Anoms: esc(strings.Join(h.anom, " || ")), Sources: s2.sources() + "\t" + s2.roles() + "\t" + s2.entry(), Tags: []string{"shrunk", "anomaly:" + class}}
 }
 
+// againstExpected compares the outcomes of one run with the recorded outcomes of the reference semantics.
+func againstExpected(obs, expect []string) []string {
+	var out []string
+	for i, e := range expect {
+		if i >= len(obs) || e == "" || e == "FUEL" || e == "UNSPEC" || obs[i] == "BUDGET" {
+			if e == "FUEL" || e == "UNSPEC" {
+				break
+			}
+			continue
+		}
+		if obs[i] == e || (strings.HasPrefix(obs[i], "E:") && strings.HasPrefix(e, "E:") && obs[i] != "E:user" && e != "E:user") {
+			continue
+		}
+		out = append(out, fmt.Sprintf("spec text=%d impl %s reference semantics %s", i, obs[i], e))
+		break
+	}
+	return out
+}
+
 // replay re-runs a recorded witness: {"failat": k, "texts": [source, ..]} and prints every kind's observables.
 func replay(path string) {
 	var w struct {
@@ -614,6 +651,7 @@ func replay(path string) {
 		Texts  []string `json:"texts"`
 		Names  []string `json:"names"`
 		Load   bool     `json:"load_run"`
+		Expect []string `json:"expected"` // outcomes of the reference semantics per text ("" / FUEL / UNSPEC = not compared)
 	}
 	b, err := os.ReadFile(path)
 	if err != nil {
@@ -642,7 +680,7 @@ func replay(path string) {
 		fmt.Printf("entry point   : %s\n", s.entry())
 		fmt.Printf("twin          : %s\n", strings.Join(tw.obs, " ;; "))
 		fmt.Printf("implementation: %s\n", strings.Join(clean.obs, " ;; "))
-		for _, an := range cleanAnomalies(s, clean, tw) {
+		for _, an := range append(cleanAnomalies(s, clean, tw), againstExpected(clean.obs, w.Expect)...) {
 			fmt.Println("  ANOMALY", an)
 			bad++
 		}
@@ -656,7 +694,11 @@ func replay(path string) {
 	for k := 0; k < nKinds; k++ {
 		r := runSession(s, w.Failat, FKind(k))
 		fmt.Printf("%-14s: %s\n", FKind(k), strings.Join(r.obs, " ;; "))
-		for _, an := range anomalies(s, FKind(k), r, tw) {
+		ans := anomalies(s, FKind(k), r, tw)
+		if FKind(k) == KScript {
+			ans = append(ans, againstExpected(r.obs, w.Expect)...)
+		}
+		for _, an := range ans {
 			fmt.Println("  ANOMALY", an)
 			bad++
 		}
